@@ -6,6 +6,29 @@ import subprocess
 ROOT = os.path.dirname(os.path.dirname(os.path.abspath(__file__)))
 
 CHECKS = {
+    "C05": dict(
+        technique="TLA+ module specification extended with DEff(i, G) (which rows take the value of group G of trainable i: the "
+                  "scatter whose transpose the gradient is), model-checked by TLC and compared with the real jax.jacfwd of "
+                  "get_all_parameters/get_all_states; jax.grad through integrate vs complex-step differentiation of the "
+                  "specification's scheme (evaluator cross-checked against TLC mod p)",
+        category="exploration", design="4/C05",
+        text="Sharing structure: for every history of <= 3 insert/make_trainable calls (groups of unequal size included) the 0/1 "
+             "Jacobian of the simulated parameters with respect to the trainable values must be the indicator of TLC's DEff. "
+             "Numbers: radius, length, axial resistivity, capacitance, initial v, leak conductance/reversal, data_stimulate "
+             "amplitude, data_set value x sharing pattern x {bwd_euler, crank_nicolson} x 3 backends x checkpoint layouts on "
+             "enumerated trees, rtol 1e-7 against an independent forward-mode derivative of the specified scheme; HH cell: "
+             "reverse vs forward mode, extrapolated finite differences as a guarded third opinion.",
+        note="TLC pins the transposition/sharing structure and (via C01) the rational core; derivatives through exp rest on JAX's "
+             "two AD modes agreeing. Finite differences never decide unless their own error estimate is tiny."),
+    "C15": dict(
+        technique="order conditions as field identities in TLA+ (OrderCond.tla) checked by TLC over Z_p; deterministic "
+                  "refinement ladder of the real code against closed-form cable theory",
+        category="other", design="4/C15",
+        text="TLC: the discrete axial operator equals the exact flux divergence for every quadratic on a uniform sealed cable; "
+             "backward Euler exact on linear-in-t, Crank-Nicolson (as coded) on quadratic-in-t solutions. Real code: ncomp = 4*2^k "
+             "against the Green's function of a sealed cable and dt = 0.5/2^k against RC relaxation, observed orders in "
+             "[1.8,2.2] / [0.9,1.1]; E + I/(g A) is a fixed point (absolute units).",
+        note="The limit statement itself is outside model checking (Lax theorem trusted); level 'other'."),
     "C18": dict(
         technique="two instances of the TLA+ module specification (Copies.tla: shared prefix, Copy(pickle|deepcopy), divergent "
                   "suffix) model-checked by TLC (CopyIsEqual, EqualObs, Independence); hash-sampled histories replayed with "
